@@ -40,6 +40,14 @@ V3 = L.V3
 OPS = ("+", "-", "*", "/")
 
 
+def _many_rows(r):
+    if not isinstance(r, tuple):
+        return False
+    if r and r[0] == "arr2" and len(r[1]) >= 7:
+        return True
+    return any(_many_rows(x) for x in r if isinstance(x, tuple))
+
+
 def term_kinds():
     """name -> function(variable recipe) -> term recipe."""
     ks = {}
@@ -54,6 +62,8 @@ def term_kinds():
     ks["x*p"] = lambda v: ("bin", "*", v, P)
     ks["2*x"] = lambda v: ("bin", "*", ("c", 2), v)
     for i, leaf in enumerate(L.layer_D_leaves()):
+        if _many_rows(leaf):
+            continue        # 7..13-row reductions: C02's subject (term counts), too large to accumulate hundreds of times
         ks["node%02d:%s" % (i, leaf[0])] = (lambda leaf: lambda v: leaf)(leaf)
     return ks
 
@@ -181,6 +191,25 @@ def observe(e, names, b, pts, Pn, small=True):
 
     rec("gradient", sym_grad)
     rec("compile", lambda: (lambda f: [float(np.asarray(f(x)).reshape(-1)[0]) for x in xs])(compiler.compile_expression(e, V)))
+    pars = [o_ for k_, o_ in b.named.items() if k_[0] == "par"]
+    if pars:
+        # closures compiled at the first parameter value, parameters then updated, SAME closures called again
+        def after_set():
+            f = compiler.compile_expression(e, V)
+            g = compiler.compile_gradient(e, V)
+            old = [p_.value for p_ in pars]
+            try:
+                for p_ in pars:
+                    p_.set(1.25)
+                return ([float(np.asarray(f(x)).reshape(-1)[0]) for x in xs],
+                        [float(np.asarray(e.evaluate(pd)).reshape(-1)[0]) for pd in pds],
+                        [np.asarray(g(x), dtype=float).reshape(-1).tolist() for x in xs],
+                        [[float(np.asarray(autodiff.gradient(e, v).evaluate(pd)).reshape(-1)[0]) for v in V] for pd in pds])
+            finally:
+                for p_, o_ in zip(pars, old):
+                    p_.set(o_)
+
+        rec("after-parameter-set", after_set)
     rec("compile_gradient", lambda: (lambda f: [np.asarray(f(x), dtype=float).reshape(-1).tolist() for x in xs])(compiler.compile_gradient(e, V)))
     rec("compile_jacobian", lambda: (lambda f: [np.asarray(f(x), dtype=float).reshape(-1).tolist() for x in xs])(autodiff.compile_jacobian([e], V)))
     if small:
@@ -208,6 +237,16 @@ def compare(out, ref, A, names, fails, tag, nterms, shallow=None):
                 fails.add("problem.variables", config=tag, got=val, expected=sorted(names, key=natural_key))
         elif label == "degree":
             pass
+        elif label == "after-parameter-set":
+            cv, tv, cg, tg = val
+            with np.errstate(all="ignore"):
+                okv = all((not np.isfinite(t_)) or abs(c_ - t_) <= 1e-9 * scale * (1 + abs(t_)) for c_, t_ in zip(cv, tv))
+                okg = all((not np.isfinite(t_)) or abs(c_ - t_) <= 1e-8 * scale * (1 + abs(t_))
+                          for cr, tr in zip(cg, tg) for c_, t_ in zip(cr, tr))
+            if not okv:
+                fails.add("compiled-value-ignores-parameter-update", config=tag, compiled=cv, tree=tv)
+            elif not okg:
+                fails.add("compiled-gradient-ignores-parameter-update", config=tag, compiled=cg, tree=tg)
         elif label in ("evaluate", "compile"):
             ok_idx = np.flatnonzero(A.ok)
             for k in ok_idx:
